@@ -447,6 +447,8 @@ package nsqd
 //@   ensures[len] c.exitFlag != 1 ==> atunlock(len(c.clients), "RWMutex") == atlock(len(c.clients), "RWMutex") - (atlock(has(c.clients, clientID), "RWMutex") ? 1 : 0)
 //@   ensures[deletion-only-if-ephemeral-and-last] onceSpawns != old(onceSpawns) ==> c.ephemeral && onceSpawns == old(onceSpawns) + 1 && onceSpawned == &c.deleter
 //@   ensures[durable-channel-stays] !c.ephemeral ==> onceSpawns == old(onceSpawns)
+//   (round 7) what is started is the literal that hands the channel to its delete callback (RemoveClient$1, zz_contracts_r7_verif.go)
+//@   ensures[deletion-runs-the-delete-callback] onceSpawns != old(onceSpawns) ==> onceSpawnedFn == "(*github.com/nsqio/nsq/nsqd.Channel).RemoveClient$1"
 //   "once its LAST consumer leaves": decided on the number of subscribers left when the write lock that removed this one is
 //   released - not on a count taken in an earlier critical section (two consumers leaving together would both miss it)
 //@   ensures[deletion-only-if-none-left-at-removal] onceSpawns != old(onceSpawns) ==> atunlock(len(c.clients), "RWMutex") == 0
